@@ -19,7 +19,8 @@ VERIF = os.path.dirname(os.path.dirname(os.path.abspath(__file__)))
 REPO = "/repo"
 ROOT = "/tmp/mutw"
 OUT = os.path.join(VERIF, "mutants", "results.jsonl")
-GOENV = dict(os.environ, GOFLAGS="-mod=mod", GOPROXY="off", GOSUMDB="off", GOTOOLCHAIN="local")
+GOENV = dict(os.environ, GOFLAGS="-mod=mod", GOPROXY="off", GOSUMDB="off", GOTOOLCHAIN="local",
+             GOCACHE="/tmp/gocache-iso")  # scratch worktrees get their own build cache: it is wiped with them (the shared one grew to 114 GB)
 COST = {"C04": 1, "C17": 1, "C20": 2, "C03": 2, "C05": 2, "C01": 2, "C11": 2, "C12": 2, "C13": 2, "C14": 2, "C15": 2, "C16": 2, "C09": 3,
         "C19": 3, "C18": 3, "C02": 4, "C10": 4, "C08": 4, "C06": 4, "C07": 5}
 
